@@ -460,9 +460,10 @@ def run_str(case, ctx):
         return
     # the all-plain case has an exact API equivalent
     if all(k == "plain" for k in kinds):
-        ok, api = call(DP.DataPath, *toks) if s else call(DP.DataPath)
+        stoks = s.split(delim) if s else []  # (a token that contains the delimiter is several tokens of the string)
+        ok, api = call(DP.DataPath, *stoks) if s else call(DP.DataPath)
         if ok and not (obj == api):
-            ctx.violate("C10/str/neq", f"from_str({s!r}) = {obj!r} != DataPath(*{toks!r})")
+            ctx.violate("C10/str/neq", f"from_str({s!r}) = {obj!r} != DataPath(*{stoks!r})")
     try:
         exp = M.walk(pterm, doc)
         got = call(obj.get_data, doc, True)
